@@ -95,6 +95,106 @@ static void hash_history (YaepAllocator *al)
   delete_hash_table (t);
 }
 
+
+/* ---------------- hash table, inductive step: ONE operation from an ARBITRARY table state that
+   satisfies the representation invariant.  Slot contents are chosen by the solver, the elements'
+   hash values are symbolic; the invariant is assumed before and asserted after the operation
+   together with the abstract effect.  One step from every invariant state covers histories of any
+   length for the table size at hand. */
+#ifndef __cplusplus
+#define ISZ 24
+static int slot[ISZ];                 /* per path: -1 empty, -2 deleted, else element index */
+static hash_table_entry_t deleted_marker (void) { return (hash_table_entry_t) 1; }
+/* slot holds EMPTY?  idx may be symbolic: branch-free disjunction over the concrete slot states */
+static int is_empty_at (unsigned idx, int size) { int s, r = 0; for (s = 0; s < size; s++) if (slot[s] == -1) r |= (idx == (unsigned) s); return r; }
+/* is element e (at slot pos) reachable on its own probe sequence before the first EMPTY slot? */
+static int reachable (int e, int pos, int size)
+{
+  unsigned h = els[e].hash, idx = h % (unsigned) size, step = 1 + h % (unsigned) (size - 2); int k, r = 0, blocked = 0;
+  for (k = 0; k < size; k++)
+    {
+      r |= (!blocked) & (idx == (unsigned) pos);
+      blocked |= is_empty_at (idx, size);
+      idx += step; idx = (unsigned) sx_ite (idx >= (unsigned) size, idx - (unsigned) size, idx);
+    }
+  return r;
+}
+static void read_slots (hash_table_t t, int size, int nel)
+{
+  int s, e;
+  for (s = 0; s < size; s++)
+    {
+      hash_table_entry_t v = t->entries[s];
+      slot[s] = -1;
+      if (v == deleted_marker ()) slot[s] = -2;
+      for (e = 0; e < nel; e++) if (v == (hash_table_entry_t) &els[e]) slot[s] = e;
+      if (v != NULL && slot[s] == -1) slot[s] = -3;   /* foreign pointer */
+    }
+}
+static int invariant (int size, int nel)
+{
+  int s, e, ok = 1;
+  for (e = 0; e < nel; e++)
+    {
+      int cnt = 0, pos = -1;
+      for (s = 0; s < size; s++) if (slot[s] == e) { cnt++; pos = s; }
+      if (cnt > 1) return 0;
+      if (cnt == 1) ok &= reachable (e, pos, size);
+    }
+  for (s = 0; s < size; s++) if (slot[s] == -3) return 0;
+  return ok;
+}
+static void hash_step (YaepAllocator *al)
+{
+  int size, nel = (int) sx_param ("elements", 3), hmax = (int) sx_param ("hmax", 63), s, e, i, op, nonempty = 0, ndel = 0, was[NEL], now[NEL], cnt;
+  hash_table_t t = create_hash_table (al, (size_t) sx_param ("size", 5), h_fn, eq_fn);
+  size = (int) hash_table_size (t);
+  sx_assume (size <= ISZ && size >= 3);
+  for (i = 0; i < nel; i++) { els[i].key = i; els[i].hash = (unsigned) sx_range ("hash", 0, hmax); }
+  /* arbitrary pre-state: every slot empty, deleted or one of the elements */
+  for (s = 0; s < size; s++)
+    {
+      int c = sx_choice ("slot", nel + 2);
+      slot[s] = c == 0 ? -1 : c == 1 ? -2 : c - 2;
+      t->entries[s] = slot[s] == -1 ? NULL : slot[s] == -2 ? deleted_marker () : (hash_table_entry_t) &els[slot[s]];
+      if (slot[s] != -1) nonempty++;
+      if (slot[s] == -2) ndel++;
+    }
+  sx_assume (nonempty < size);                       /* the load rule keeps at least one empty slot */
+  t->number_of_elements = (size_t) nonempty; t->number_of_deleted_elements = (size_t) ndel;
+  sx_assume (invariant (size, nel));                 /* representation invariant (may be symbolic in the hash values) */
+  for (e = 0; e < nel; e++) { was[e] = 0; for (s = 0; s < size; s++) if (slot[s] == e) was[e] = 1; }
+  op = sx_param ("op0", -1) >= 0 ? (int) sx_param ("op0", -1) : sx_choice ("op", 3);
+  e = sx_param ("el0", -1) >= 0 ? (int) sx_param ("el0", -1) : sx_choice ("el", nel);
+  sx_observe ("op", op); sx_observe ("el", e);
+  for (i = 0; i < nel; i++) now[i] = was[i];
+  if (op == 0)
+    {
+      hash_table_entry_t *p = find_hash_table_entry (t, &els[e], 1);
+      if (was[e]) sx_assert (*p == (hash_table_entry_t) &els[e], "step: reserving find of a present element returns its entry");
+      else { sx_assert (*p == NULL, "step: reserving find of an absent element returns an empty entry"); *p = (hash_table_entry_t) &els[e]; now[e] = 1; }
+    }
+  else if (op == 1)
+    {
+      hash_table_entry_t *p = find_hash_table_entry (t, &els[e], 0);
+      sx_assert ((*p == (hash_table_entry_t) &els[e]) == was[e] && (was[e] || *p == NULL), "step: find reports presence exactly");
+    }
+  else { sx_assume (was[e]); remove_element_from_hash_table_entry (t, &els[e]); now[e] = 0; }
+  /* post-state: invariant and abstract contents */
+  size = (int) hash_table_size (t);
+  sx_assert (size <= ISZ, "step: table size within the harness bound");
+  if (size <= ISZ)
+    {
+      read_slots (t, size, nel);
+      sx_assert (invariant (size, nel), "step: the representation invariant holds after the operation");
+      cnt = 0;
+      for (i = 0; i < nel; i++) { int here = 0; for (s = 0; s < size; s++) if (slot[s] == i) here = 1; sx_assert (here == now[i], "step: the table holds exactly the elements of the model"); cnt += now[i]; }
+      sx_assert (hash_table_elements_number (t) == (size_t) cnt, "step: elements number equals the model's count");
+    }
+  delete_hash_table (t);
+}
+#endif
+
 /* ---------------- object stack */
 #define MAXFIN 8
 static unsigned char model_top[200]; static int model_len;
@@ -181,7 +281,10 @@ void harness (void)
   int mode = (int) sx_param ("mode", 0); long base = sx_live_heap_blocks ();
   YaepAllocator *al = yaep_alloc_new (NULL, NULL, NULL, NULL);
   sx_assume (al != NULL);
-  if (mode == 0) hash_history (al); else if (mode == 1) os_history (al); else vlo_history (al);
+  if (mode == 0) hash_history (al); else if (mode == 1) os_history (al); else if (mode == 2) vlo_history (al);
+#ifndef __cplusplus
+  else hash_step (al);
+#endif
   yaep_alloc_del (al);
   sx_assert (sx_live_heap_blocks () == base, "deleting the container releases all its memory");
   if (sx_param ("witness", 0)) sx_assert (0, "witness");
